@@ -424,7 +424,12 @@ def register_json(T, repo):
                 if attr in self.BOOLS:
                     return fresh_bool(attr)
                 if attr in self.INTS:
-                    return fresh_int(attr)
+                    v = fresh_int(attr)
+                    if attr == 'context':
+                        # shell.py replaces a negative --context by 1e8
+                        # right after option parsing
+                        st_.assume(v >= 0)
+                    return v
                 from pyvc.engine import OptVal
                 if attr in ('replace',):
                     return OptVal(fresh_bool('none'), ListS(StrS(), None,
